@@ -113,6 +113,9 @@ class Family:
             return self._render_td(d)
         if k == "newtype":
             return f"{d['name']} = NewType({d['name']!r}, {tast.render(d['t'])})\n"
+        if k == "talias":
+            # PEP 695 alias: a lazily evaluated, transparent name for any type expression
+            return f"type {d['name']} = {tast.render(d['t'])}\n"
         if k == "typevar":
             args = [repr(d["name"])]
             args += [tast.render(c) for c in d.get("constraints", ())]
